@@ -67,6 +67,33 @@ impl Monitor for OnchainMonitor {
 					self.claims.push((*node, h.to_string(), w.chain.height()));
 				}
 			},
+			Obs::Event { node, ev: lightning::events::Event::SpendableOutputs { outputs, .. }, .. } => {
+				// C11 E2: announcing spendable outputs cannot be undone, so the transaction that holds them must be
+				// buried by the anti-reorg depth. Judged against the highest tip the chain ever had (a fork may have
+				// lowered the tip since the node drew its conclusion; nodes are never ahead of the chain).
+				let depth = lightning::ln::verif_api::timing_constants().anti_reorg_delay;
+				for d in outputs {
+					use lightning::sign::SpendableOutputDescriptor as D;
+					let txid = match d {
+						D::StaticOutput { outpoint, .. } => outpoint.txid,
+						D::DelayedPaymentOutput(x) => x.outpoint.txid,
+						D::StaticPaymentOutput(x) => x.outpoint.txid,
+					};
+					v.rep.count("c11_e2_spendable_outputs_checked");
+					match w.chain.confirmed_at.get(&txid) {
+						Some(h) => {
+							let confs = w.peak_height.max(w.chain.height()) + 1 - *h;
+							if confs == depth {
+								v.rep.count("c11_e2_spendable_outputs_announced_at_exactly_the_anti_reorg_depth");
+							}
+							if confs < depth {
+								v.violation("C11", "E2-irreversible-before-burial", "spendable outputs were announced before the transaction holding them was buried by the anti-reorg depth", format!("node{}: outputs of {} announced with {} confirmations (depth {})", node, txid, confs, depth));
+							}
+						},
+						None => v.violation("C11", "E2-irreversible-before-burial", "spendable outputs were announced for a transaction that is not confirmed", format!("node{}: outputs of {}", node, txid)),
+					}
+				}
+			},
 			Obs::Reorg { unconfirmed, fork_height, .. } => {
 				// a claim whose parent left the chain, or that was first made in a block that is gone, starts afresh
 				// (the monitor forgets claims registered above the fork point and builds new ones at the fee level
